@@ -1,4 +1,5 @@
 """C04 - already-canonical URLs are left untouched."""
+from ..rules import port, template
 from ..rules.kindrules import k1, k2_k3, make_kinds
 from .common import quoter_audits, table_checks
 
@@ -18,5 +19,8 @@ def run(ctx):
     K = make_kinds(ctx.model)
     k2_k3(ctx, K)       # the parsing constructor applies requoters (not the escaping quoters) to the text it cuts out
     k1(ctx, K, only={"_url.encode_url"})
+    # the authority is re-assembled by the constructor: printer and splitter must be inverse, port 0 is not "absent"
+    template.tpl2(ctx)
+    port.sh5(ctx)
     ctx.extra["exhaustive_tables"] = {f"{b}:{n}": {"literal": "".join(sorted(p["literal"])), "decodable": "".join(sorted(p["decodable"]))}
                                       for b, d in pols.items() for n, p in d.items()}
